@@ -31,6 +31,12 @@ def run_one(m):
             for e in edits:
                 p = os.path.join(s, e["file"])
                 txt = open(p).read()
+                if "regex" in e:
+                    txt2, nsub = re.subn(e["regex"], e["repl"], txt)
+                    if nsub < e.get("min", 1):
+                        return m, "EDIT-FAILED", "%s: regex %r matched %d times" % (e["file"], e["regex"], nsub)
+                    open(p, "w").write(txt2)
+                    continue
                 if "renames" in e:
                     # rename identifiers (word boundaries) inside the region [start marker, end marker)
                     a = txt.index(e["start"])
